@@ -445,7 +445,8 @@ Inductive hop :=
 | HRead                                        (* Get / GetAttributes / GetAttributeList / Locate / Query ...: no write *)
 | HActivate (u : Z)                            (* one UPDATE of crypto_objects.state *)
 | HDestroy (u : Z)                             (* DELETE of the addressed base row *)
-| HRestart.                                    (* new engine object on the same database file *)
+| HRestart                                     (* new engine object on the same database file *)
+| HForeign.                                    (* Create / CreateKeyPair / DeriveKey ...: a new object this model does not describe; it takes the next identifier *)
 
 Definition step (st : store) (h : hop) : store :=
   match h with
@@ -457,6 +458,7 @@ Definition step (st : store) (h : hop) : store :=
                               (p_initial r) (p_owner r) else r) (s_rows st)) (s_next st) (Some u)
   | HDestroy u => mkS (remove_row u (s_rows st)) (s_next st) (s_placeholder st)
   | HRestart => mkS (s_rows st) (s_next st) None
+  | HForeign => mkS (s_rows st) (s_next st + 1) (Some (s_next st))
   end.
 Definition run (st : store) (h : list hop) : store := fold_left step h st.
 
